@@ -481,6 +481,9 @@ def idStep (s : DState) : List String → DState × String
   | ["req", rid, tr, key, blen, ej, "own"] =>
     -- the backend adds identifiers of its own to its answer: the propagated one stays the client's
     idStep s ["req", rid, tr, key, blen, ej]
+  | ["req", rid, tr, key, blen, ej, "ws"] =>
+    -- a WebSocket opening handshake the backend declines: an ordinary request to every layer
+    idStep s ["req", rid, tr, key, blen, ej]
   | ["req", rid, tr, key, blen, ej, "upg"] =>
     -- an upgrade offer the backend declines is an ordinary request to every layer
     idStep s ["req", rid, tr, key, blen, ej]
@@ -743,7 +746,7 @@ def step (s : DState) (line : String) : DState × String :=
   | "pool" :: rest => poolStep s rest
   | ["stop", _nb, _pm, _du, _st, pool] =>
     -- what the protocol theorems (Helios.Shut.stop_safe / stop_no_deadlock) promise for every schedule
-    (s, "stop returned within=true late=0" ++ (if pool == "1" then " pooledClosed=true" else ""))
+    (s, "stop returned within=true late=0" ++ (if pool == "1" || pool == "2" then " pooledClosed=true" else ""))
   -- `stop_safe` + fact `gracefulStopAlways`: the balancer is stopped on every path of the shutdown
   | ["gs", _stuck] => (s, "gs returned probesAfter=0")
   -- the model's components read the configuration; none of them writes it
